@@ -24,7 +24,9 @@ GATES = ["attempts", "existing_public", "existing_private", "property_names", "f
          "threaded_switches", "via_constructor", "via_static_parser", "via_reader", "via_socket_reader",
          "failed_constructions_between"]
 
-FRESH = ("foo", "DF9999", "newattr", "x", "Payload", "IDF999", "NSatellites", "identity_", "a_01", "DF002_01")
+FRESH = ("foo", "DF9999", "newattr", "x", "Payload", "IDF999", "NSatellites", "identity_", "a_01", "DF002_01",
+         # names that are awkward inside an error text (setattr accepts any string): format directives, braces, quotes
+         "DF%03d", "load%", "%s", "{0}", "{name}", "a'b", 'a"b', "back\\slash", "new\nline", "", "é")
 VALUES = (0, 1, -1, 3.5, "x", "", None, b"\x00", [], {}, True, 2**70)
 
 
